@@ -34,7 +34,8 @@ ASSUMPTIONS = [
 ]
 
 FEAT = gen.feat(
-    ann={"c": 5, "o": 1, "u": 3, "i": 1.5, "d": 1.2, "x": 0.7, "h": 0.7, "ph": 0.5, "ss": 0.4},
+    ann={"c": 5, "o": 1, "u": 3, "i": 1.5, "d": 1.2, "x": 0.7, "h": 0.7, "ph": 0.5, "ss": 0.4,
+         "w": 0.25},
     bodies={"leaf": 4, "next": 3, "rec": 0.8, "fnext": 0.3, "next2": 0.2, "rec_next": 0.3},
     ncls=(3, 7), nmeth=(3, 8), ncorpus=(5, 9), p_dup_sig=0.15, swarm_drop=0.3,
 )
@@ -362,7 +363,8 @@ def tie_pattern(scen, v):
     try:
         begin_run()
         fam = scen["family"]
-        h = Harness(fam["spec"], fam["regs"])
+        extras = [[m] for m in (scen["config"].get("extras") or [])]
+        h = Harness(fam["spec"], [list(r) for r in fam["regs"]] + extras)
         c = v.get("call") or fam["corpus"][v["call_index"]]
         h.w.call("f", c)
         from ovld.utils import subtler_type
@@ -384,6 +386,43 @@ def tie_pattern(scen, v):
         return False
 
 
+def rank_composition_differs(scen, v):
+    """Re-run reference and configuration with MultiTypeMap.mro recorded: does some resolution
+    partition its candidates into different ranks (as sets) under the two orders?
+    (that - and not merely another order inside one rank - is the mechanism of F-C06-3)"""
+    try:
+        import ovld.typemap as tm
+
+        rec = []
+        orig = tm.MultiTypeMap.mro
+
+        def spy(self, tup):
+            groups = orig(self, tup)
+            rec[-1].append((repr(tup), [frozenset(
+                (getattr(c.handler, "__name__", "?"), getattr(getattr(c.handler, "__code__", None),
+                                                              "co_firstlineno", 0)) for c in g)
+                for g in groups]))
+            return groups
+
+        tm.MultiTypeMap.mro = spy
+        try:
+            rec.append([])
+            outcome_vector(scen["family"], None)
+            rec.append([])
+            outcome_vector(scen["family"], scen["config"])
+        finally:
+            tm.MultiTypeMap.mro = orig
+        a = {}
+        for k, g in rec[0]:
+            a.setdefault(k, g)
+        for k, g in rec[1]:
+            if k in a and a[k] != g:
+                return True
+        return False
+    except Exception:  # noqa: BLE001
+        return None
+
+
 def vclass(scen, v):
     return [v["clause"][:40], v.get("symptom")]
 
@@ -393,7 +432,8 @@ def signature(scen, v):
             "patterns": "|".join(nonmirror_pattern(scen, v)), "symptom": v.get("symptom"),
             "sites": "+".join(v.get("sites") or []),
             "extra_kinds": "+".join(v.get("extra_kinds") or []),
-            "dependent_candidates_tied": tie_pattern(scen, v)}
+            "dependent_candidates_tied": tie_pattern(scen, v),
+            "rank_composition_differs": rank_composition_differs(scen, v)}
 
 
 def size(scen):
